@@ -17,6 +17,10 @@ pub trait Sc: Copy + Debug + PartialEq + PartialOrd + Send + Sync + 'static {
     fn lattice(thorough: bool) -> Vec<Self>;
     fn one() -> Self;
     fn zero() -> Self;
+    /// value as f64 (exact for every type but 64-bit integers beyond 2^53)
+    fn f(self) -> f64;
+    /// nearest value of this type
+    fn of(v: f64) -> Self;
 }
 
 macro_rules! sc_int {
@@ -39,6 +43,8 @@ macro_rules! sc_int {
             }
             fn one() -> Self { 1 }
             fn zero() -> Self { 0 }
+            fn f(self) -> f64 { self as f64 }
+            fn of(v: f64) -> Self { v as $t }
         }
     )*};
 }
@@ -120,6 +126,12 @@ impl Sc for f32 {
     fn zero() -> Self {
         0.0
     }
+    fn f(self) -> f64 {
+        self as f64
+    }
+    fn of(v: f64) -> Self {
+        v as f32
+    }
 }
 impl Sc for f64 {
     const NAME: &'static str = "f64";
@@ -168,6 +180,12 @@ impl Sc for f64 {
     }
     fn zero() -> Self {
         0.0
+    }
+    fn f(self) -> f64 {
+        self
+    }
+    fn of(v: f64) -> Self {
+        v
     }
 }
 
